@@ -6,6 +6,8 @@ Decided clauses (narrow): the anchored mechanism "early-outs for already adapted
          accepts its own output by construction
   C10.b  every configuration returned by a parse method has passed validate()
          (re-stated from C02.c) and parse_object re-applies actions on the given object
+  C10.c  the "__path__" metadata a checker pops before conversion is put back on every
+         normal path on which it was present (both _check_type siblings)
 Not decided: idempotence of normalisation for all values (paths, defaults filled in
 on a second parse, byte-identical dumps).
 """
@@ -17,7 +19,7 @@ from typing import List, Optional, Tuple
 
 from .convsites import conversion_sites
 from .report import Ctx
-from .srcmodel import call_leaf, calls_in, contains, src, walk_local
+from .srcmodel import call_leaf, calls_in, const_str, contains, src, walk_local
 from .util import guard_chain, root_name, strip_not
 
 VALUE_NAMES = {"val", "value", "init_args"}
@@ -121,6 +123,57 @@ def run(ctx: Ctx) -> int:
     aps = [c for c in calls_in(po) if call_leaf(c) == "_apply_actions"]
     ok = len(aps) >= 2 and any("cfg_obj" in ast.unparse(c.args[0]) for c in aps if c.args)
     ctx.oblige("C10.b", ok, aps[0] if aps else po, "parse_object runs the same per-key checker over the given object (a parse result is re-checked, not trusted)" if ok else "parse_object no longer applies actions to the given object", fn=po)
+
+    # ---------------- C10.c ---------------------------------------------------
+    # metadata pairing: a value's "__path__" entry that a checker pops before converting/validating it is put
+    # back on every normal path on which it was present (otherwise parse(result) != result for results with_meta)
+    n_pairs = 0
+    for ref in ("_typehints:ActionTypeHint._check_type", "_jsonschema:ActionJsonSchema._check_type"):
+        fn = ctx.func(ref)
+        gf = ctx.cfg(fn)
+        pops = [
+            s
+            for s in walk_local(fn)
+            if isinstance(s, ast.Assign) and len(s.targets) == 1 and isinstance(s.targets[0], ast.Name) and any(call_leaf(c) == "pop" and c.args and const_str(c.args[0]) == "__path__" for c in calls_in(s.value))
+        ]
+        for s in pops:
+            n_pairs += 1
+            pn = s.targets[0].id
+            stores = [
+                t
+                for t in walk_local(fn)
+                if isinstance(t, ast.Assign) and isinstance(t.targets[0], ast.Subscript) and const_str(t.targets[0].slice) == "__path__" and isinstance(t.value, ast.Name) and t.value.id == pn
+            ]
+            rebound = [t for t in walk_local(fn) if isinstance(t, ast.Assign) and t is not s and any(isinstance(x, ast.Name) and x.id == pn for tg in t.targets for x in ast.walk(tg))]
+            removed_edges = set()
+            for t in walk_local(fn):
+                if not isinstance(t, (ast.If, ast.While)):
+                    continue
+                tt = t.test
+                if isinstance(tt, ast.Name) and tt.id == pn:
+                    removed_edges |= gf.branch_edges(tt, "f")
+                elif isinstance(tt, ast.Compare) and len(tt.ops) == 1 and isinstance(tt.left, ast.Name) and tt.left.id == pn and isinstance(tt.comparators[0], ast.Constant) and tt.comparators[0].value is None:
+                    if isinstance(tt.ops[0], ast.IsNot):
+                        removed_edges |= gf.branch_edges(tt, "f")
+                    elif isinstance(tt.ops[0], ast.Is):
+                        removed_edges |= gf.branch_edges(tt, "t")
+            loops = [l for l in walk_local(fn) if isinstance(l, (ast.For, ast.While)) and contains(l, s)]
+            ends = [gf.exit] + [i for l in loops for i in gf.by_ast.get(id(l), [])] + [i for l in loops for i in gf.by_ast.get(id(l.iter), [])]
+            starts = [t for i in gf.cn(s) for t, lab in gf.nodes[i].succ if lab != "e"]
+            reach = gf.reachable(starts, removed=gf.cn(stores), exclude_labels={"e"}, removed_edges=removed_edges, include_srcs=True)
+            ok = bool(stores) and not rebound and not (reach & set(ends))
+            path = None if ok else gf.find_path(starts, ends, removed=gf.cn(stores), exclude_labels={"e"})
+            ctx.oblige(
+                "C10.c",
+                ok,
+                s,
+                f'the "__path__" metadata popped into `{pn}` is put back (`[..."__path__"] = {pn}`) on every normal path on which it was present'
+                if ok
+                else f'the "__path__" metadata popped into `{pn}` is not put back on every normal path: re-parsing a result that carries the metadata returns a different configuration',
+                fn=fn,
+                details={"path": gf.describe_path(path)},
+            )
+    ctx.floor("C10.c-meta-pops", n_pairs, 2)
 
     return ctx.finish(
         explanation=(
